@@ -121,7 +121,7 @@ theorem execQueue_length (conn : Nat) (q : List Queued) :
         rw [ih _ _ _ _ _ _ (fun y hy => hne y (by simp [hy])) hnc]
         simp only [List.length_cons]; omega
       simp only [hu, Bool.false_eq_true, if_false] at hnc ⊢
-      cases hp : parseCmd name args with
+      cases hp : parseCmdQ c.q name args with
       | none =>
         simp only [hp] at hnc ⊢
         rw [ih _ _ _ _ _ _ (fun y hy => hne y (by simp [hy])) hnc]
